@@ -2,6 +2,7 @@ package an
 
 import (
 	"fmt"
+	"go/token"
 	"go/types"
 	"strings"
 	"sync"
@@ -322,12 +323,32 @@ func (r *Result) actual(p *ssa.Parameter, st pstate) (ssa.Value, pstate) {
 	return nil, pstate{}
 }
 
+// ActualAt resolves a value that is a parameter of an entered helper to the caller's argument in the calling context
+// of the given state (repeatedly); other values are returned unchanged.
+func (r *Result) ActualAt(v ssa.Value, st pstate) ssa.Value {
+	for i := 0; i <= MaxInlineDepth; i++ {
+		p, ok := v.(*ssa.Parameter)
+		if !ok {
+			return v
+		}
+		a, cs := r.actual(p, st)
+		if a == nil {
+			return v
+		}
+		v, st = a, cs
+	}
+	return v
+}
+
 func (r *Result) succs(st pstate) []pstate {
 	fn := st.fr.fn
 	b := fn.Blocks[st.blk]
 	if len(b.Instrs) == 0 {
 		return nil
 	}
+	// (the outcome of an entered call is known only in the rest of the call's own block: carrying it into the
+	// following blocks multiplies call frames - every distinct caller state is a frame - and was measured to blow
+	// the state budget on the ledger store)
 	mk := func(s *ssa.BasicBlock) pstate { return pstate{fr: st.fr, pred: st.blk, blk: s.Index} }
 	switch t := b.Instrs[len(b.Instrs)-1].(type) {
 	case *ssa.If:
@@ -542,6 +563,92 @@ func Deref(root *ssa.Function, v ssa.Value) []ssa.Value {
 type ValCtx struct {
 	V   ssa.Value
 	Ctx []*ssa.Call
+	Ret *ssa.Return // set by DerefStep when V is a result of this return of an entered helper
+}
+
+// FailingReturn: the return's last result is an error that is certainly non-nil (built by an error constructor or
+// a sentinel error variable).
+func FailingReturn(r *ssa.Return) bool {
+	if r == nil || len(r.Results) == 0 {
+		return false
+	}
+	last := r.Results[len(r.Results)-1]
+	if !isErrorType(last.Type()) {
+		return false
+	}
+	if c, ok := last.(*ssa.Call); ok {
+		if callee := c.Call.StaticCallee(); callee != nil && ErrorCtors[callee.String()] {
+			return true
+		}
+	}
+	if u, ok := last.(*ssa.UnOp); ok && u.Op == token.MUL {
+		if g, isG := u.X.(*ssa.Global); isG && sentinelError(g) {
+			return true
+		}
+	}
+	return false
+}
+
+// DerefStep performs one expansion step of DerefCtx (helper parameter -> argument, helper call or tuple component ->
+// returned values) without expanding phis; ok is false when v is not such a value.
+func DerefStep(root *ssa.Function, v ssa.Value, ctx []*ssa.Call) (out []ValCtx, ok bool) {
+	entered := map[*ssa.Function]bool{}
+	for _, g := range InlineReach(root) {
+		entered[g] = g != root
+	}
+	fromCall := func(c *ssa.Call, idx int) bool {
+		callee := c.Call.StaticCallee()
+		if callee == nil || !entered[callee] {
+			return false
+		}
+		rets := Returns(callee)
+		if len(rets) == 0 {
+			return false
+		}
+		inner := append(append([]*ssa.Call{}, ctx...), c)
+		for _, r := range rets {
+			if idx < len(r.Results) {
+				out = append(out, ValCtx{V: r.Results[idx], Ctx: inner, Ret: r})
+			}
+		}
+		return true
+	}
+	switch x := v.(type) {
+	case *ssa.Parameter:
+		if !entered[x.Parent()] {
+			return nil, false
+		}
+		idx := -1
+		for i, fp := range x.Parent().Params {
+			if fp == x {
+				idx = i
+			}
+		}
+		if idx < 0 {
+			return nil, false
+		}
+		if len(ctx) > 0 && ctx[len(ctx)-1].Call.StaticCallee() == x.Parent() {
+			s := ctx[len(ctx)-1]
+			if idx < len(s.Call.Args) {
+				return []ValCtx{{V: s.Call.Args[idx], Ctx: ctx[:len(ctx)-1]}}, true
+			}
+		}
+		for _, s := range SitesOf(root, x.Parent()) {
+			if idx < len(s.Call.Args) {
+				out = append(out, ValCtx{V: s.Call.Args[idx]})
+			}
+		}
+		return out, len(out) > 0
+	case *ssa.Call:
+		if x.Call.StaticCallee() != nil && x.Call.StaticCallee().Signature.Results().Len() == 1 && fromCall(x, 0) {
+			return out, true
+		}
+	case *ssa.Extract:
+		if c, isCall := x.Tuple.(*ssa.Call); isCall && fromCall(c, x.Index) {
+			return out, true
+		}
+	}
+	return nil, false
 }
 
 // DerefCtx is Deref with calling context (see ValCtx); ctx is the context v itself was found in.
@@ -571,7 +678,7 @@ func DerefCtx(root *ssa.Function, v ssa.Value, ctx []*ssa.Call) []ValCtx {
 		}
 		seen[k] = true
 		if d > 10 {
-			out = append(out, ValCtx{v, ctx})
+			out = append(out, ValCtx{V: v, Ctx: ctx})
 			return
 		}
 		switch x := v.(type) {
@@ -633,7 +740,7 @@ func DerefCtx(root *ssa.Function, v ssa.Value, ctx []*ssa.Call) []ValCtx {
 			}
 			return
 		}
-		out = append(out, ValCtx{v, ctx})
+		out = append(out, ValCtx{V: v, Ctx: ctx})
 	}
 	walk(v, ctx, 0)
 	return out
